@@ -61,23 +61,24 @@ type finding struct {
 }
 
 type agg struct {
-	mu        sync.Mutex
-	cnt       map[string]int64
-	maxes     map[string]int64
-	dist      map[string]map[uint64]struct{}
-	keys      map[uint64]struct{}
-	keysCap   bool
-	samples   []json.RawMessage
-	vios      map[string]*violation // by sig
-	vioOrder  []string
-	incs      map[string]int
-	res       map[int64]map[string]uint64
-	procs     int
-	deaths    int
-	hangs     int
-	raceRep   int
-	raceDedup map[string]string
-	cmds      []string
+	mu             sync.Mutex
+	cnt            map[string]int64
+	maxes          map[string]int64
+	dist           map[string]map[uint64]struct{}
+	keys           map[uint64]struct{}
+	keysCap        bool
+	samples        []json.RawMessage
+	vios           map[string]*violation // by sig
+	vioOrder       []string
+	incs           map[string]int
+	res            map[int64]map[string]uint64
+	procs          int
+	deaths         int
+	hangs          int
+	confirmedHangs int
+	raceRep        int
+	raceDedup      map[string]string
+	cmds           []string
 }
 
 func newAgg() *agg {
@@ -390,8 +391,23 @@ func (r *runner) digest(recs []rec) procResult {
 }
 
 // runRange executes [from,to) in per-case mode, attributing deaths and hangs case by case.
+// tooManyHangs: after a dozen watchdog hits the run is cut short (it fails anyway); the
+// remaining cases are reported as not executed.
+func (r *runner) tooManyHangs() bool {
+	r.a.mu.Lock()
+	defer r.a.mu.Unlock()
+	if r.a.hangs > 12 {
+		r.a.incs["run cut short after more than 12 watchdog hits"] = 1
+		return true
+	}
+	return false
+}
+
 func (r *runner) runRange(cfg wk.Config, name string, from, to int64) {
 	for from < to {
+		if r.tooManyHangs() {
+			return
+		}
 		recs, stderr, exit, cmdline := r.launch(cfg, name+"-pc", []string{"-from", fmt.Sprint(from), "-to", fmt.Sprint(to), "-percase"}, 0)
 		pr := r.digest(recs)
 		if pr.done {
@@ -412,7 +428,16 @@ func (r *runner) handleDeath(cfg wk.Config, name string, killer int64, pr procRe
 	if pr.hang != nil {
 		r.a.mu.Lock()
 		r.a.hangs++
+		confirmed := r.a.confirmedHangs
 		r.a.mu.Unlock()
+		if confirmed >= 2 {
+			// two hangs are already confirmed by isolated re-runs: further watchdog hits are only counted
+			r.a.mu.Lock()
+			r.a.incs["watchdog hit not re-run (two hangs already confirmed in this run)"]++
+			r.a.cnt["inconclusive"]++
+			r.a.mu.Unlock()
+			return
+		}
 		// isolated re-run with 5x budget
 		b := r.plan.CaseBudget * 5
 		if b <= 0 {
@@ -434,6 +459,9 @@ func (r *runner) handleDeath(cfg wk.Config, name string, killer int64, pr procRe
 			r.a.mu.Unlock()
 			return
 		}
+		r.a.mu.Lock()
+		r.a.confirmedHangs++
+		r.a.mu.Unlock()
 		d, _ := json.Marshal(map[string]any{"cmd": cl, "goroutines": head([]byte(pr.hang.Msg), 20000)})
 		r.a.addVio(violation{Sig: "hang", Msg: fmt.Sprintf("case %d did not finish within %.0fs, nor within %.0fs when re-run alone", killer, r.plan.CaseBudget, b), Case: killer, Config: cfg.Name, Detail: d})
 		return
@@ -449,11 +477,15 @@ func (r *runner) handleDeath(cfg wk.Config, name string, killer int64, pr procRe
 func (r *runner) runShard(cfg wk.Config, shard int) {
 	name := fmt.Sprintf("%s-%d", cfg.Name, shard)
 	start := int64(0)
+	hangsHere := 0
 	cs := int64(r.plan.Chunk)
 	if cs <= 0 {
 		cs = 1000
 	}
 	for {
+		if r.tooManyHangs() {
+			return
+		}
 		recs, stderr, exit, cmdline := r.launch(cfg, name, []string{"-shard", fmt.Sprint(shard), "-nshards", fmt.Sprint(cfg.Shards), "-startchunk", fmt.Sprint(start)}, 0)
 		pr := r.digest(recs)
 		if pr.done {
@@ -464,6 +496,15 @@ func (r *runner) runShard(cfg wk.Config, shard int) {
 			d, _ := json.Marshal(map[string]any{"cmd": cmdline, "exit": exit, "stderr_tail": tail(stderr, 4000)})
 			r.a.addVio(violation{Sig: "worker-startup", Msg: "worker died outside of any case", Config: cfg.Name, Detail: d})
 			return
+		}
+		if pr.hang != nil {
+			hangsHere++
+			if hangsHere > 3 {
+				r.a.mu.Lock()
+				r.a.incs[fmt.Sprintf("shard %s stopped after %d watchdog hits", name, hangsHere)]++
+				r.a.mu.Unlock()
+				return
+			}
 		}
 		if r.plan.PerCase || pr.hang != nil {
 			killer := pr.openFrom
